@@ -79,8 +79,8 @@ BIN_FUNCS = {
     "btclib.script.taproot.parse": "scripts",
     "btclib.script.sig_ops.sig_op_count": "scripts",
     "btclib.script.script.script_from_dict": "scripts",
-    "btclib.descriptors.miniscript.from_script": "scripts",
-    "btclib.descriptors.miniscript.reads_back": "scripts",
+    "btclib.descriptors.miniscript.from_script": "msscripts",
+    "btclib.descriptors.miniscript.reads_back": "msscripts",
     "btclib.script.engine.validate_push_only": "scripts",
     "btclib.psbt.psbt_utils.deserialize_map": "maps",
     "btclib.psbt.psbt_utils.parse_leaf_script": "leafscript",
@@ -115,6 +115,25 @@ def _bin_seed(rng, kind):
         return G.varint_any(rng.choice([len(body), len(body), len(body) + 1, 0] + G.BOUNDARY), rng) + body
     if kind == "scripts":
         return rng.choice(S.SCRIPTS)
+    if kind == "msscripts":
+        b = rng.choice(S.MS_SCRIPTS or S.SCRIPTS)
+        r = rng.random()
+        if r < 0.55:
+            return b
+        # structure-aware: cut at instruction boundaries (drop leading instructions, trailing ones, one in the middle)
+        from btclib.script import script as SC
+        try:
+            spans = list(SC.op_code_spans(b))
+        except Exception:  # noqa: BLE001
+            return b
+        if len(spans) < 2:
+            return b
+        k = rng.randrange(1, len(spans))
+        if r < 0.75:
+            return b[spans[k][1]:]
+        if r < 0.9:
+            return b[:spans[k][1]]
+        return b[:spans[k][1]] + b[spans[k][2]:]
     if kind == "maps":
         b, _ = rng.choice(S.CLASS_BIN.get("PsbtIn") or [(b"\x00", {})])
         return b
@@ -190,7 +209,7 @@ def g_binary_funcs(R, rng, n):
         hex_ok = not (ann in ("bytes", "'bytes'"))
         for _ in range(per):
             b = _bin_seed(rng, kind)
-            r = rng.random()
+            r = rng.random() if kind != "msscripts" else rng.random() * 0.5
             data = b if r < 0.25 else (G.random_bytes(rng) if r < 0.35 else G.mutate_bytes(rng, b, S.SCRIPTS[:8]))
             spec = B(data)
             if stream_ok and rng.random() < 0.3:
@@ -474,7 +493,7 @@ def g_generic(R, rng, n):
                 if p.kind in (p.VAR_POSITIONAL, p.VAR_KEYWORD):
                     continue
                 has_default = p.default is not inspect.Parameter.empty
-                if has_default and (rng.random() < 0.65 or p.name in ("ec", "hf", "G", "wordlists", "magic", "version")):
+                if has_default and (rng.random() < 0.65 or p.name in ("ec", "hf", "G", "wordlists", "magic", "version", "commit", "commit_hash", "receipt")):
                     continue
                 v = value_for(_ann(p), rng, info["bool_ret"], p.name)
                 if v is NOVAL:
@@ -498,13 +517,20 @@ def g_generic(R, rng, n):
 def g_deep(R, rng, n):
     pk = _pub33(rng).hex()
     xo = pk[2:]
-    depths = [10, 100, 129, 130, 500, 998, 1000, 3000, 10000]
+    depths = [10, 100, 128, 129, 130, 500, 998, 1000, 3000, 10000]
     cases = []
     for d in depths:
         cases += [
             ("btclib.descriptors.descriptors.parse", {"rep": ["sh(", d, f"pk({pk})", ")"]}),
             ("btclib.descriptors.descriptors.parse", {"rep": ["wsh(", d, f"pk({pk})", ")"]}),
             ("btclib.descriptors.descriptors.parse", {"rep": [f"tr({xo},", 1, {"rep": ["{", d, f"pk({xo})", f",pk({xo})}}"]}, ")"]}),
+            ("btclib.descriptors.descriptors.parse", {"rep": [f"tr({xo},", 1, {"rep": [f"{{pk({xo}),", d, f"pk({xo})", "}"]}, ")"]}),
+            ("btclib.descriptors.descriptors.parse", {"rep": [f"tr({xo},", 1, {"rep": [f"{{{{pk({xo}),pk({xo})}},", d, f"pk({xo})", "}"]}, ")"]}),
+            ("btclib.descriptors.descriptors.parse", {"rep": ["wsh(", 1, {"rep": [f"and_v(v:pk({pk}),", d, f"pk({pk})", ")"]}, ")"]}),
+            ("btclib.descriptors.miniscript.parse", {"rep": [f"and_v(v:pk({pk}),", d, f"pk({pk})", ")"]}),
+            ("btclib.descriptors.miniscript.parse", {"rep": [f"or_i(0,", d, f"pk({pk})", ")"]}),
+            ("btclib.descriptors.miniscript.parse", {"rep": [f"andor(pk({pk}),older(1),", d, f"pk({pk})", ")"]}),
+            ("btclib.descriptors.miniscript.parse", {"rep": [f"thresh(1,pk({pk}),s:", d, f"pk({pk})", ")"]}),
             ("btclib.descriptors.descriptors.parse", {"rep": ["wsh(", 1, {"rep": ["and_v(v:", d, f"pk({pk})", f",pk({pk}))"]}, ")"]}),
             ("btclib.descriptors.descriptors.parse", {"rep": ["(", d, "", ")"]}),
             ("btclib.descriptors.descriptors.parse", {"rep": ["[", d, pk, "]"]}),
@@ -531,7 +557,44 @@ def g_deep(R, rng, n):
                     if keys:
                         k = rng.choice(keys)
                         cases.append((ep, G.json_spec(G.json_set(doc, (k,), {"deep": [kind, d, 0]}))))
-    rng.shuffle(cases)
+    for L in G.DIGIT_RUNS:
+        for dg in ("9" * L, "1" * L, "0" * L + "1", "-" + "9" * L):
+            cases += [
+                ("btclib.descriptors.descriptors.parse", f"multi({dg},{pk})"),
+                ("btclib.descriptors.descriptors.parse", f"wsh(multi({dg},{pk},{pk}))"),
+                ("btclib.descriptors.descriptors.parse", f"wsh(and_v(v:pk({pk}),older({dg})))"),
+                ("btclib.descriptors.descriptors.parse", f"tr({xo},multi_a({dg},{xo}))"),
+                ("btclib.descriptors.descriptors.parse", f"wpkh({S.XPRV}/{dg}/*)"),
+                ("btclib.descriptors.descriptors.parse", f"wpkh([d34db33f/{dg}h]{pk})"),
+                ("btclib.descriptors.descriptors.parse", f"wpkh({S.XPRV}/<{dg};1>/*)"),
+                ("btclib.descriptors.miniscript.parse", f"older({dg})"),
+                ("btclib.descriptors.miniscript.parse", f"after({dg})"),
+                ("btclib.descriptors.miniscript.parse", f"multi({dg},{pk})"),
+                ("btclib.descriptors.miniscript.parse", f"thresh({dg},pk({pk}))"),
+                ("btclib.bip32.der_path.indexes_from_der_path", f"m/{dg}"),
+                ("btclib.bip32.der_path.indexes_from_der_path", f"m/{dg}h/0"),
+                ("btclib.bip32.der_path.int_from_index_str", dg),
+                ("btclib.bip32.key_origin.BIP32KeyOrigin.from_description", f"d34db33f/{dg}"),
+                ("btclib.bip21.Bip21.parse", f"bitcoin:?amount={dg}"),
+                ("btclib.bip21.Bip21.parse", f"bitcoin:?amount=0.{dg}"),
+                ("btclib.amount.sats_from_btc", {"dec": "1"}),
+                ("btclib.mnemonic.entropy.bin_str_entropy_from_str", dg),
+                ("btclib.base58.decode", dg),
+                ("btclib.bech32.decode", "bc1" + dg),
+                ("btclib.tx_or_psbt.tx_or_psbt_from_any", dg),
+            ]
+            for name in ("Tx", "TxOut", "TxIn", "OutPoint", "PsbtIn", "PsbtOut", "Psbt", "BlockHeader"):
+                if name in S.CLASS_JSON:
+                    ep, _ = _class_ep(name, "from_dict")
+                    doc, _kw = rng.choice(S.CLASS_JSON[name])
+                    for k in list(doc)[:12]:
+                        cases.append((ep, G.json_spec(G.json_set(doc, (k,), dg))))
+    # deterministic cover: the cases are dealt out over the deep tasks of a run (task k takes every 4th case)
+    import random as _random
+    _random.Random(0).shuffle(cases)
+    part = getattr(rng, "seed_value", 0) & 3
+    if n < len(cases):
+        cases = cases[part::4]
     for ep, spec in cases[:n]:
         spec = _flatten_rep(spec)
         C.call_spec(R, "deep", ep, [spec], {}, consumers=False)
@@ -599,7 +662,47 @@ def g_witness_consumers(R, rng, n):
                     consumers=False)
 
 
+def g_psbt_degenerate(R, rng, n):
+    """every PSBT whose inputs spend 0/1/2-byte scripts (silent-payment ones first): accepted, then every consumer"""
+    seeds = S.DEGENERATE
+    if not seeds:
+        return
+    part = getattr(rng, "seed_value", 0) & 1
+    for b in seeds[part::2][:n]:
+        C.call_spec(R, "psbt.degenerate", "btclib.psbt.psbt.Psbt.parse", [B(b)], {})
+        C.call_spec(R, "psbt.degenerate", "btclib.psbt.psbt.Psbt.parse", [IO(b)], {"check_validity": False})
+
+
+def g_ms_decode(R, rng, n):
+    """every compiled miniscript with leading instructions dropped, trailing ones cut, one removed, one byte
+    changed into another op code: handed to the decoder in both contexts (deterministic, exhaustive)"""
+    from btclib.script import script as SC
+    eps = ["btclib.descriptors.miniscript.from_script", "btclib.descriptors.miniscript.reads_back"]
+    part = getattr(rng, "seed_value", 0) & 1
+    done = 0
+    for b in S.MS_SCRIPTS[part::2]:
+        try:
+            spans = list(SC.op_code_spans(b))
+        except Exception:  # noqa: BLE001
+            continue
+        variants = {b}
+        for k in range(len(spans)):
+            variants.add(b[spans[k][1]:])
+            variants.add(b[:spans[k][1]])
+            variants.add(b[:spans[k][1]] + b[spans[k][2]:])
+            if spans[k][2] - spans[k][1] == 1:
+                for op in (0x00, 0x51, 0x63, 0x67, 0x68, 0x69, 0x76, 0x87, 0x88, 0xA9, 0xAC, 0xAD, 0xAE, 0xB1, 0xB2, 0xBA):
+                    variants.add(b[:spans[k][1]] + bytes([op]) + b[spans[k][2]:])
+        for v in sorted(variants):
+            for c in ("P2WSH", "TAPSCRIPT"):
+                for ep in eps:
+                    C.call_spec(R, "msdecode", ep, [B(v)], {"context": c}, bool_ret=ep.endswith("reads_back"), consumers=False)
+                    done += 1
+            if done >= n:
+                return
+
+
 GROUPS = {
     "binary": g_binary_classes, "binfunc": g_binary_funcs, "text": g_text, "json": g_json, "jsonfunc": g_json_funcs,
-    "pred": g_pred, "generic": g_generic, "deep": g_deep, "textcodec": g_textcodec, "witness": g_witness_consumers,
+    "pred": g_pred, "generic": g_generic, "deep": g_deep, "psbtdegenerate": g_psbt_degenerate, "msdecode": g_ms_decode, "textcodec": g_textcodec, "witness": g_witness_consumers,
 }
